@@ -316,7 +316,7 @@ def write_evidence(ctx: Ctx, violations: int, checker_cmd: str):
         "samples": ctx.samples[:8] or ["(no correspondence case was run)"],
         "traces_validated_against_impl": ctx.traces_validated,
         "correspondence_suites": ctx.suites,
-        "input_distribution": dict(ctx.dist.most_common(60)),
+        "input_distribution": dict(ctx.dist.most_common(100)),
         "direct_oracle_failures": len(ctx.failures),
         "model_impl_disagreements": len(ctx.disagreements),
         "broken_ties": ctx.broken,
